@@ -77,9 +77,14 @@ func main() {
 			rep.Cases++
 		}
 	case "sweep":
-		require, caseType, fn = "HandlersSweep", "(Z * list Z * Z * Z)%type", "hmismatches"
 		ta := NewTestApp(GenOpts{Time: time.Unix(1690000000, 0).UTC()})
-		terms = runSweep(ta, rep)
+		if *profile == "values" {
+			require, caseType, fn = "HandlersSweep", "(msg * Z * Z)%type", "vmismatches"
+			terms = runSweepValues(ta, rep, *seed, lo, hi)
+		} else {
+			require, caseType, fn = "HandlersSweep", "(Z * list Z * Z * Z)%type", "hmismatches"
+			terms = runSweep(ta, rep)
+		}
 	case "sig":
 		require, caseType, fn = "Sig", "scase", "smismatches"
 		ta := NewTestApp(GenOpts{Time: time.Unix(1690000000, 0).UTC()})
